@@ -316,6 +316,56 @@ except BaseException as e:
 """
 
 
+ISOLATED_CHILD = r"""
+import resource, sys
+resource.setrlimit(resource.RLIMIT_CPU, (%d, %d))
+from fcp.parser import get_fcp_from_string
+from fcp.error import Logger
+text = sys.stdin.read()
+lg = Logger({})
+res = get_fcp_from_string(text, lg)
+print("OK" if res.is_ok() else "ERR")
+if res.is_err():
+    lg.error(res.err())
+"""
+
+
+def isolated_cpu_budget(run):
+    """Inputs whose cost could sit inside ONE C-level call (number conversion, regex matching), which an
+    in-process timer cannot interrupt: each is parsed in a child process under a kernel CPU-time limit
+    (RLIMIT_CPU = 30 s; typical cost 0.05 s).  A child killed by that limit twice is a parse that does not
+    terminate in any reasonable number of steps; a child that outlives a 10 minute wall-clock watchdog without
+    having used its CPU budget says nothing (inconclusive)."""
+    import subprocess
+    import sys
+
+    nums = ["1e1000000", "1e99999999", "1e-99999999", "9e999999999999", "1E+20000000", "-3e77777777", "0.5e12345678", "1" + "0" * 20000, "0." + "0" * 20000 + "1"]
+    texts = []
+    for n in nums:
+        texts += ['version: "3"\nstruct A { a @%s: u8, }' % n, 'version: "3"\nstruct A { a @0: [u8, %s], }' % n, 'version: "3"\nenum E { A = %s, }' % n,
+                  'version: "3"\nimpl p for A { k: %s, }' % n, 'version: "3"\nstruct A { a @0: u8 | range(%s, 1), }' % n]
+    for t in texts[run.shard::run.nshards]:
+        case = {"class": "huge-number", "text": t if len(t) < 300 else t[:120] + " ... (%d characters)" % len(t)}
+        for attempt in (1, 2):
+            try:
+                p = subprocess.run([sys.executable, "-c", ISOLATED_CHILD % (30, 40)], input=t, capture_output=True, text=True, timeout=600, env=env.child_env())
+            except subprocess.TimeoutExpired:
+                run.inconclusive_because("a child parsing a %d character input outlived the 10 minute watchdog" % len(t))
+                return
+            if p.returncode == 0 and p.stdout.split("\n")[0] in ("OK", "ERR"):
+                run.count("inputs_parsed_under_a_kernel_cpu_limit")
+                run.case(sig="huge-number|%s" % p.stdout.split("\n")[0])
+                break
+            if p.returncode in (-24, -9, 152, 137):  # SIGXCPU (soft limit) / SIGKILL (hard limit)
+                if attempt == 2:
+                    run.violation("parsing a %d character input did not finish within 30 s CPU (twice, in a process of its own)" % len(t), case)
+                    return
+                continue
+            case["stderr"] = p.stderr[-600:]
+            run.violation("an exception escaped the parser (child exit %s): %s" % (p.returncode, p.stderr.strip().split("\n")[-1][:200] if p.stderr.strip() else ""), case)
+            return
+
+
 def one_shot_sources(run):
     """The schema arrives through a path that can be read only once (a pipe: /dev/stdin): parsing must still
     return a schema or a renderable error."""
@@ -409,6 +459,7 @@ def run(run):
                     p = os.path.join(d, "main.fcp")
                     judge(run, cls + ("-nested" if nested else ""), lambda p=p: PC.parse_file(p), main, {"sub/inner.fcp": body})
                 shutil.rmtree(d, ignore_errors=True)
+        isolated_cpu_budget(run)
         if run.shard == 0:
             one_shot_sources(run)
             for l in LITERALS:
@@ -463,6 +514,7 @@ def run(run):
 
 
 def conclude(run):
+    run.require("inputs_parsed_under_a_kernel_cpu_limit")
     run.require("inputs", "outcome_ok", "outcome_err", "errors_rendered", "citations_checked", "quoted_lines_checked")
 
 
